@@ -51,7 +51,7 @@ static std::string DiesInChild(const std::function<void()> & fn)
    if (WIFEXITED(st) && WEXITSTATUS(st) == 0) return "";
    return WIFSIGNALED(st) ? vh::fmt("child killed by signal %d", WTERMSIG(st)) : vh::fmt("child exited with status %d", WEXITSTATUS(st));
 }
-// finding of this harness (Message::FindFlat reinterprets non-reference items as a RefCountableRef; reached through RawDataQueryFilter::SetFromArchive's
+// finding of this harness, repaired in /repo since (Message::FindFlat reinterpreted non-reference items as a RefCountableRef; reached through RawDataQueryFilter::SetFromArchive's
 // FindFlat("def")): does the archive, at any depth, carry a field "def" of another type than B_RAW_TYPE?
 static bool HasDefFieldOfWrongType(const Message & a, int depth = 0)
 {
@@ -497,7 +497,7 @@ static void Regress()
       Expect(T, "ValueExistsQueryFilter(joe)", E::On(ValueExistsQueryFilter("joe"), any) && !E::On(ValueExistsQueryFilter("joe"), nojoe) && !E::On(ValueExistsQueryFilter("joe", B_STRING_TYPE), any) && !E::On(ValueExistsQueryFilter("joe", B_ANY_TYPE, 1), any), true);
    }
    vh::begin_case(6);
-   {  // finding of this harness: Atoll("-9223372036854775808") negates INT64_MIN (signed overflow, UBSan) when the expression parser converts an (int64) value
+   {  // finding of this harness (repaired in /repo since): Atoll("-9223372036854775808") negates INT64_MIN (signed overflow, UBSan) when the expression parser converts an (int64) value
       vh::note("Atoll int64-min witness: [island >= (int64)-9223372036854775808]");
       const std::string died = DiesInChild([]() { ConstQueryFilterRef f = CreateQueryFilterFromExpression("island >= (int64)-9223372036854775808"); (void)f; });
       if (!died.empty()) RFail("atoll-int64-min", "[island >= (int64)-9223372036854775808]: " + died + " (UBSan: Atoll() negates INT64_MIN, SetupSystem.cpp)");
@@ -509,7 +509,7 @@ static void Regress()
       }
    }
    vh::begin_case(7);
-   {  // finding of this harness: Message::FindFlat() on a field of non-reference items (int64, double, String ...) reinterprets the item as a RefCountableRef;
+   {  // finding of this harness (repaired in /repo since): Message::FindFlat() on a field of non-reference items (int64, double, String ...) reinterprets the item as a RefCountableRef;
       // an untrusted RawDataQueryFilter archive whose "def" field has such a type reaches it
       vh::note("FindFlat witness: raw-data filter archive with an int64 'def' field");
       std::string died = DiesInChild([]() { Message m; (void)m.AddInt64("f", 0x4141414141414141LL); ConstByteBufferRef b; if (m.FindFlat("f", b).IsOK()) _exit(7); });
@@ -543,7 +543,6 @@ int main(int argc, char ** argv)
       vh::begin_case(k);
       if (mode == "hostile") RunHostileCase(k); else RunSemCase(k);
    }
-   if (mode != "hostile") vh::stat("expr_skipped_int64_min_literal", SkippedInt64MinLiterals());
    if (mode != "hostile") for (int i = 0; i < NUM_FK; i++) { vh::stat(std::string("decisions_") + FKName(i) + "_true", ectx.leafTrue[i]); vh::stat(std::string("decisions_") + FKName(i) + "_false", ectx.leafFalse[i]); vh::stat(std::string("decisions_") + FKName(i) + "_unspecified", ectx.leafUnspec[i]); }
    for (int i = 0; i < NUM_TEST_NODES; i++) rNodes[i].Reset();
    return vh::finish();
